@@ -13,5 +13,6 @@ CONSTANTS
   Chars = {}
   IntParts = {}
   Sample = 3
+  HiStep = 1
 INVARIANTS EmitCall
 CHECK_DEADLOCK FALSE
